@@ -434,6 +434,11 @@ fn families() -> Vec<Family> {
         quick: 5,
         thorough: 6,
     });
+    {
+        let mut every: Vec<Vec<u8>> = mc_core::chars::all().into_iter().map(|c| c.to_string().into_bytes()).collect();
+        every.extend([vec![0u8], vec![b'\n'], vec![b'\r'], vec![0xff], vec![0xc3], vec![0x85], vec![0xa0]]);
+        f.push(Family { name: "every character, pairs", eps: (0..11).collect(), alphabet: every, quick: 2, thorough: 2 });
+    }
     let mut plist_bytes = toks(&["a", "@", " ", "\t", "\n"]);
     plist_bytes.push(vec![0xe9]);
     plist_bytes.push(vec![0xff]);
